@@ -161,3 +161,68 @@ def _pure_external(dotted: str) -> bool:
     conservative list: str()/repr()/print() may call user __repr__, which is user code
     but not a jaxtyping check entry by itself)."""
     return any(dotted == p or dotted.startswith(p) for p in _PURE_PREFIXES)
+
+
+def _bind_args(model, caller, call, callee: FuncInfo) -> dict:
+    """parameter name -> argument expression at a resolved call site."""
+    params = list(callee.params)
+    t = model.resolve_call(caller, call) if isinstance(call, ast.Call) else None
+    if callee.cls is not None and params and (callee.name in ("__init__", "__new__") or (t is not None and t.recv is not None) or (t is not None and t.kind == "class")):
+        params = params[1:]
+    out = {}
+    if not isinstance(call, ast.Call):
+        return out
+    for i, a in enumerate(call.args):
+        if isinstance(a, ast.Starred):
+            break
+        if i < len(params):
+            out[params[i]] = a
+    for k in call.keywords:
+        if k.arg:
+            out[k.arg] = k.value
+    return out
+
+
+def trace_value(cg: "CallGraph", fn: FuncInfo, expr, depth: int = 0, _seen=None) -> list:
+    """Terminal source expressions [(FuncInfo, expr)] of a value: follows parameters to the
+    arguments at resolved call sites, `self.X` to what __init__ (or another method) stores
+    there, and single-assignment locals."""
+    m = cg.m
+    _seen = _seen if _seen is not None else set()
+    key = (fn.qualname, ast.dump(expr) if isinstance(expr, ast.AST) else str(expr))
+    if depth > 6 or key in _seen:
+        return [(fn, expr)]
+    _seen.add(key)
+    if isinstance(expr, ast.Name):
+        name = expr.id
+        is_recv = fn.cls is not None and fn.params and fn.params[0] == name
+        if name in fn.params and not is_recv:
+            sites = cg.callers(fn)
+            outs = []
+            for caller, call in sites:
+                if not isinstance(caller, FuncInfo):
+                    continue
+                b = _bind_args(m, caller, call, fn)
+                if name in b:
+                    outs += trace_value(cg, caller, b[name], depth + 1, _seen)
+            return outs or [(fn, expr)]
+        defs = []
+        for n in walk_scope(fn.node):
+            if isinstance(n, ast.Assign):
+                for t in n.targets:
+                    if isinstance(t, ast.Name) and t.id == name:
+                        defs.append(n.value)
+        if len(defs) == 1:
+            return trace_value(cg, fn, defs[0], depth + 1, _seen)
+        return [(fn, expr)]
+    if isinstance(expr, ast.Attribute) and isinstance(expr.value, ast.Name) and fn.cls is not None and fn.params and expr.value.id == fn.params[0]:
+        outs = []
+        for meth in fn.cls.methods.values():
+            recv = meth.params[0] if meth.params else None
+            for n in walk_scope(meth.node):
+                if isinstance(n, ast.Assign):
+                    for t in n.targets:
+                        if isinstance(t, ast.Attribute) and isinstance(t.value, ast.Name) and t.value.id == recv and t.attr == expr.attr:
+                            outs += trace_value(cg, meth, n.value, depth + 1, _seen)
+        return outs or [(fn, expr)]
+    return [(fn, expr)]
